@@ -1010,6 +1010,7 @@ class FunctionalQuadraticPerturb(Functional):
             grad_lipschitz = func.grad_lipschitz
         else:
             grad_lipschitz = (func.grad_lipschitz + self.linear_term.norm())
+        grad_lipschitz = grad_lipschitz + 2 * abs(self.quadratic_coeff)
 
         constant = func.domain.field.element(constant)
         if constant.imag != 0:
